@@ -829,11 +829,12 @@ fn stack_parent(set: &SubjectSet, args: &Args, cfg: &BuildCfg) -> i32 {
         "C06",
         &args.tier,
         args.seed,
-        "stack clause: state-machine build, child process per (stress definition, input shape, size in {10^3, 10^5, 4*10^6}); the lexer runs on a worker thread with a fixed 256 KiB stack over consecutive skips (pattern skip, callback Skip, Filter::Skip, skip-pattern callback), one giant token (self-loop, 2-cycle), many short tokens, adversarial repetitions; oracle: the child survives every size (death by signal at a larger size after success at 10^3 = stack use grows with input length / token length / number of consecutive skips); non-trivial = runs with >= 10^5 bytes",
+        "stack clause: state-machine build, child process per (stress definition, input shape, size in {16, 10^3, 10^5, 4*10^6}); the lexer runs on a worker thread with a fixed 256 KiB stack over consecutive skips (pattern skip, callback Skip, Filter::Skip, skip-pattern callback), one giant token (self-loop, 2-cycle), many short tokens, adversarial repetitions; oracle: the child survives every size (death by signal at a larger size after success at 16 bytes = stack use grows with input length / token length / number of consecutive skips); non-trivial = runs with >= 10^5 bytes",
     );
-    run.assumptions = vec![format!("build configuration {}", cfg.name()), "a 256 KiB thread stack is enough for any input-independent frame use (the 10^3 run must succeed, otherwise the limit is doubled once and recorded)".into()];
+    run.assumptions = vec![format!("build configuration {}", cfg.name()), "a 256 KiB thread stack is enough for any input-independent frame use (the 16-byte run must succeed, otherwise the limit is doubled once and recorded)".into()];
     let exe = std::env::current_exe().unwrap();
-    let sizes: &[usize] = if args.thorough() { &[1_000, 100_000, 4_000_000, 16_000_000] } else { &[1_000, 100_000, 4_000_000] };
+    // the smallest size is the input-independent baseline: it must fit the fixed stack
+    let sizes: &[usize] = if args.thorough() { &[16, 1_000, 100_000, 4_000_000, 16_000_000] } else { &[16, 1_000, 100_000, 4_000_000] };
     let mut code = 0;
     'outer: for (idx, sd) in set.defs.iter().enumerate() {
         if !sd.family.starts_with("stress") {
@@ -874,7 +875,7 @@ fn stack_parent(set: &SubjectSet, args: &Args, cfg: &BuildCfg) -> i32 {
                         "C06",
                         &args.replay_dir,
                         &json!({"property": "C06", "tier": "X", "config": cfg.name(), "stack_case": {"def": idx, "shape": shape, "size": size, "stack": stack}, "def": sd.def, "family": sd.family, "has_value": sd.has_value,
-                                "findings": [{"property": "C06", "what": format!("state-machine lexer died ({:?}) on '{name}' with {size} bytes on a {stack}-byte stack after succeeding with 1000 bytes", out.status)}]}),
+                                "findings": [{"property": "C06", "what": format!("state-machine lexer died ({:?}) on '{name}' with {size} bytes on a {stack}-byte stack after succeeding with 16 bytes", out.status)}]}),
                     );
                     code = 1;
                     break 'outer;
